@@ -32,6 +32,10 @@ m("c01-tps-in-response", "C01", "app/app.go",
   "\t\t\tapp.tpsCounter.incrementSuccess()\n", "\t\t\tapp.tpsCounter.incrementSuccess()\n\t\t\tres.GasUsed += int64(app.tpsCounter.nSuccessful)\n", "tpsCounter", "process-local counter leaks into the DeliverTx response")
 
 # ---------------- C02 ----------------
+m("c01-error-text-prints-the-contract", "C01", "precompiles/common/precompile.go",
+  "\t\t\t\t*err = fmt.Errorf(\"precompile panicked: %v\", r)\n", "\t\t\t\t*err = fmt.Errorf(\"precompile panicked: %v (call: %+v)\", r, contract)\n", "formats-a-struct-with-pointers",
+  "the error text of a failed precompile call prints the *vm.Contract, whose nested pointers print as heap addresses")
+
 m("c02-no-flush-distribution", "C02", "precompiles/distribution/distribution.go",
   "\tif err := stateDB.Flush(); err != nil {\n\t\treturn nil, err\n\t}\n", "\t_ = stateDB\n", "flush-before-dispatch")
 m("c02-erc20-mints-evm", "C02", "x/erc20/keeper/msg_server.go",
@@ -300,6 +304,9 @@ m("c09-pastperiods-start-inclusive", "C09", "x/vesting/types/schedule.go",
   "\tif readTime < startTime {\n\t\treturn 0", "\tif readTime <= startTime {\n\t\treturn 0",
   "ReadPastPeriodCount#limits", "the period count misses a zero-length first period in the start second")
 
+m("c09-grant-start-clamped-to-the-account", "C09", "x/vesting/keeper/schedule.go",
+  "\t\terr := k.addGrant(\n\t\t\tctx,\n\t\t\tvestingAcc,\n\t\t\tstartTime.Unix(),", "\t\tgrantStart := startTime.Unix()\n\t\tif accStart := vestingAcc.GetStartTime(); grantStart > accStart {\n\t\t\tgrantStart = accStart\n\t\t}\n\t\terr := k.addGrant(\n\t\t\tctx,\n\t\t\tvestingAcc,\n\t\t\tgrantStart,", "start-is-the-given-time",
+  "a later grant start is clamped to the account's start before the merge")
 # ---------------- C10 ----------------
 m("c10-escrow-underdelivery-accepted", "C10", "x/erc20/keeper/msg_server.go",
   "Add(balanceToken, tokens)\n\n\tif r := balanceTokenAfter.Cmp(expToken); r != 0 {\n\t\treturn nil, errorsmod.Wrapf(\n\t\t\ttypes.ErrBalanceInvariance,\n\t\t\t\"invalid token balance - expected: %v, actual: %v\",\n",
